@@ -59,6 +59,7 @@ def parseD (tok : String) : Option DOp :=
   | ["copy", o] => do pure (.copy (← o.toNat?))
   | ["del", o] => do pure (.destroy (← o.toNat?))
   | ["call", o] => do pure (.loadFail (← o.toNat?))   -- calling changes nothing
+  | ["asgn", o, p] => do pure (.assign (← o.toNat?) (← p.toNat?))
   | _ => none
 
 def natsStr (l : List Nat) : String := if l.isEmpty then "_" else ",".intercalate (l.map toString)
@@ -75,6 +76,7 @@ def dRes (s : DS) (tok : String) : String :=
   | ["copy", o] => if alive o then "ok" else "skip"
   | ["del", o] => if alive o then "ok" else "skip"
   | ["call", o] => if alive o then "ok" else "skip"
+  | ["asgn", o, p] => if alive o && alive p then "ok" else "skip"
   | _ => "bad"
 
 def runD (s : DS) : List String → List String
